@@ -132,6 +132,8 @@ impl<L: Language> SerializableRuleConfig<L> {
     env: DeserializeEnv<L>,
   ) -> Result<(), RuleConfigError> {
     let Some(ser) = &self.rewriters else {
+      // without any rewriter a transform must not refer to one
+      check_rewriters_in_transform(rule, env.registration.get_rewriters())?;
       return Ok(());
     };
     let reg = &env.registration;
